@@ -18,6 +18,6 @@ PY
 rc=$?
 if [ $rc -eq 0 ]; then
   GOFLAGS=-mod=mod GOPROXY=off go build ./... 2>&1 | head -5
-  (cd /verif && ./bin/lachk -property $prop -tier quick -repo $WT -verif /tmp/mut_out | grep -v "^ok" | cut -c1-400)
+  (cd /verif && ${LACHK:-./bin/lachk} -property $prop -tier quick -repo $WT -verif /tmp/mut_out | grep -v "^ok" | cut -c1-400)
 fi
 git -C $WT checkout -q -- .
